@@ -234,7 +234,7 @@ PROPS = {
               "pow (ff's generic square-and-multiply, text of the pinned dependency source) returns x^e for every exponent given as limbs; legendre / Fq::sqrt as stated under C18. "
               "These are the contracts (D_FQ) every unit above the limb layer assumes of Fq / Fr.",
         not_covered=["termination of inverse (needs gcd(a, q) = 1, i.e. A1)", "Fr::sqrt (Tonelli-Shanks), random: not under contract; read/write_be/le are proved for slice / Vec streams (a generic std::io stream enters through D2)",
-                     "the values of GENERATOR, ROOT_OF_UNITY (MODULUS, R, R2, INV, B_COEFF, NEGATIVE_ONE and the from_okm shift constants ARE checked: unit consts resp. by(compute) in unit mont)"],
+                     "that GENERATOR (2 resp. 7, a non-residue) generates the whole multiplicative group is not checked (needs the factorisation of the modulus minus one); its value, S = v2(modulus - 1) and ROOT_OF_UNITY = GENERATOR^t of exact order 2^S ARE checked as closed terms in unit consts, like MODULUS, R, R2, INV, B_COEFF, NEGATIVE_ONE and the from_okm shift constants (unit consts resp. by(compute) in unit mont)"],
         assumptions=["Kani 0.68 / CBMC 6.11; the unsafe transmute constructor pairing::bls12_381::transmute::{fq, fr} and mem::transmute_copy are used to move raw limbs in and out", "rustc codegen (MIR -> goto)",
                      "unit mont sees the representation type through the limb-level contracts that kani:limbs proves (lt / gt / eq / cmp = integer order, add_nocarry, sub_noborrow, mul2, is_zero, From<u64>), and ff's mac_with_carry / adc through theirs",
                      "rewrites R16 (derived comparison operators on the representation type written as the contracted methods), R17 (::ff:: paths), R18 (format! of the error message -> uninterpreted stub)", A['TOOLS']],
